@@ -13,13 +13,30 @@ def allDigits (s : String) : Bool := !s.isEmpty && s.all (fun c => '0' ≤ c && 
 
 /-- the transformer on this universe (what `int(...)` / `str(...)` annotations do to ints and strings); under
 `Options(no_explicit_cast=True)` a value only converts within its own type -/
-def convVal (strict : Bool) (t : String) (v : Val) : Option Val :=
+def convBase (strict : Bool) (t : String) (v : Val) : Option Val :=
   match t, v with
   | "int", .int i => some (.int i)
-  | "int", .str s => if !strict && allDigits s then some (.int s.toNat!) else none
+  | "int", .str s =>
+    if strict then none
+    else if allDigits s then some (.int s.toNat!)
+    else if s.startsWith "-" && allDigits (s.drop 1).toString then some (.int (-(((s.drop 1).toString.toNat! : Nat) : Int)))
+    else none
   | "str", .str s => some (.str s)
   | "str", .int i => if strict then none else some (.str (toString i))
   | _, _ => none
+
+/-- a type id is `int` / `str`, optionally with a constraint carried by the parameter's `Param`: `int:ge0`
+(`Param(ge=0)`), `str:max3` (`Param(max_length=3)`) -/
+def convVal (strict : Bool) (t : String) (v : Val) : Option Val :=
+  match t.splitOn ":" with
+  | [b] => convBase strict b v
+  | [b, "ge0"] => match convBase strict b v with
+    | some (.int i) => if i ≥ 0 then some (.int i) else none
+    | _ => none
+  | [b, "max3"] => match convBase strict b v with
+    | some (.str x) => if x.length ≤ 3 then some (.str x) else none
+    | _ => none
+  | _ => none
 
 def Wof (strict : Bool) : World String Val String where
   conv := convVal strict
@@ -51,18 +68,34 @@ def jsonOf : Val → Json
 
 def optStr (j : Json) : Option String := j.getStr?.toOption
 
+/-- the settings a `Param(...)` carries, as far as the model uses them -/
+structure Settings where
+  alias : Option String
+  aliasFrom : List String
+  ci : Option Bool
+  cons : Option String          -- "ge0" / "max3"
+
 def mkParam (ciOpt : Bool) (j : Json) : Param String Val String :=
   let name := str! (fld j "name")
   let priv := name.startsWith "_"
+  let st : Settings := { alias := optStr (fld j "alias"), aliasFrom := (arr! (fld j "alias_from")).map str!,
+                         ci := (fld j "ci").getBool?.toOption, cons := optStr (fld j "cons") }
+  -- `meta`: the Annotated metadata in order ("doc" / "param"); absent = the Param (if any) is the default value
+  let found : Option Settings := match obj? j "meta" with
+    | none => some st
+    | some m => findParam ((arr! m).map fun x => if str! x == "param" then Meta.param st else Meta.other)
+  let st := if priv then none else found
   { name := name
     posOnly := str! (fld j "kind") == "po"
-    ann := optStr (fld j "ann")
+    ann := (optStr (fld j "ann")).map fun a => match st.bind (·.cons) with
+      | some c => a ++ ":" ++ c
+      | none => a
     dflt := (obj? (fld j "default") "v").map valOfRaw
     pyDefault := bool! (fld j "py_default")
-    alias := if priv then none else optStr (fld j "alias")
-    aliasFrom := if priv then [] else (arr! (fld j "alias_from")).map str!
+    alias := st.bind (·.alias)
+    aliasFrom := (st.map (·.aliasFrom)).getD []
     -- field.py:751-754: the field's own setting, else Options.case_insensitive; private parameters are not fields
-    ci := if priv then false else match (fld j "ci").getBool?.toOption with
+    ci := if priv then false else match st.bind (·.ci) with
       | some b => b
       | none => ciOpt }
 
@@ -179,9 +212,17 @@ def handle (j : Json) : Json :=
   let spec := match Spec.expected W0 ss sargs kw with
     | none => Json.null
     | some e => outcomeJson e
+  -- `ret_measured`: what the return annotation itself does to the body's result, measured on the real type in
+  -- isolation (a logical combination is C09's subject; here it is the transformer `W.conv` of `parseResult`)
   let ret := match obj? j "retval" with
     | none => Json.null
-    | some r => match parseResult W0 (optStr (fld j "ret")) (valOf r) with
+    | some r =>
+      let res := match obj? j "ret_measured" with
+        | some m =>
+          let tbl : Option Val := (obj? m "ok").map valOf
+          parseResult ({ W0 with conv := fun _ _ => tbl } : World String Val String) (some "ret") (valOf r)
+        | none => parseResult W0 (optStr (fld j "ret")) (valOf r)
+      match res with
       | .ok v => jsonOf v
       | .perr => Json.str "perr"
   Json.mkObj [("model", outcomeJson out), ("spec", spec), ("ret", ret), ("decl_ok", Json.bool (declOk full (mkOpts o))),
